@@ -162,3 +162,9 @@ Proof. split; [repeat constructor; simpl; discriminate|vm_compute; reflexivity].
 Theorem C17_frozen_mutator_table : fd_table_ok gen_fd_table = true.
 Proof. exact gen_fd_table_ok. Qed.
 Print Assumptions C17_frozen_mutator_table.
+
+(* (T): OneToOne overrides every mutating method of dict found in the CURRENT
+   source (an inherited mutator would write the forward dictionary only). *)
+Theorem C17_oto_mutator_table : oto_table_ok gen_oto_table = true.
+Proof. exact gen_oto_table_ok. Qed.
+Print Assumptions C17_oto_mutator_table.
